@@ -1,4 +1,211 @@
 package main
 
-func runFmtImpl(in, out string)     {}
-func runTempDirImpl(in, out string) {}
+import (
+	"bufio"
+	"encoding/json"
+	"fmt"
+	"os"
+	"sort"
+
+	sp "github.com/scipipe/scipipe"
+)
+
+// FmtCase is one formatting case (C15): a process definition and one input set.
+type FmtCase struct {
+	ID      int                 `json:"id"`
+	Proc    string              `json:"proc"`
+	Cmd     string              `json:"cmd"`
+	Outs    map[string]string   `json:"outs"` // SetOut patterns
+	In      map[string]string   `json:"in"`
+	Joined  map[string][]string `json:"joined"`
+	Params  map[string]string   `json:"params"`
+	Tags    map[string]string   `json:"tags"`
+	Prepend string              `json:"prepend"`
+}
+
+// FmtResult is what the library produced.
+type FmtResult struct {
+	ID      int               `json:"id"`
+	Command string            `json:"command"`
+	Outs    map[string]string `json:"outs"`
+	Again   bool              `json:"again"` // 8 evaluations gave identical results
+}
+
+var fmtWf *sp.Workflow
+
+func newTaskFor(c *FmtCase) *sp.Task {
+	if fmtWf == nil {
+		fmtWf = sp.NewWorkflowCustomLogFile("fmt", 1, os.DevNull)
+	}
+	wf := fmtWf
+	// one process at a time: forget the process of the previous case (Procs() is the workflow's own map)
+	for k := range wf.Procs() {
+		delete(wf.Procs(), k)
+	}
+	p := wf.NewProc(c.Proc, c.Cmd)
+	ks := []string{}
+	for k := range c.Outs {
+		ks = append(ks, k)
+	}
+	sort.Strings(ks)
+	for _, k := range ks {
+		p.SetOut(k, c.Outs[k])
+	}
+	p.Prepend = c.Prepend
+	inIPs := map[string]*sp.FileIP{}
+	for port, path := range c.In {
+		ip, err := sp.NewFileIP(path)
+		if err != nil {
+			fmt.Println("FMT-ERROR", c.ID, err)
+			os.Exit(3)
+		}
+		inIPs[port] = ip
+	}
+	for port, members := range c.Joined {
+		carrier, err := sp.NewFileIP("carrier." + port)
+		if err != nil {
+			fmt.Println("FMT-ERROR", c.ID, err)
+			os.Exit(3)
+		}
+		sub := sp.NewInPort("sub")
+		for _, m := range members {
+			ip, err := sp.NewFileIP(m)
+			if err != nil {
+				fmt.Println("FMT-ERROR", c.ID, err)
+				os.Exit(3)
+			}
+			sub.Chan <- ip
+		}
+		close(sub.Chan)
+		carrier.SubStream = sub
+		inIPs[port] = carrier
+	}
+	params := map[string]string{}
+	for k, v := range c.Params {
+		params[k] = v
+	}
+	tags := map[string]string{}
+	for k, v := range c.Tags {
+		tags[k] = v
+	}
+	return sp.NewTask(wf, p, p.Name(), p.CommandPattern, inIPs, p.PathFuncs, p.PortInfo, params, tags, p.Prepend, nil, 1)
+}
+
+func runFmtImpl(in, out string) {
+	b, err := os.ReadFile(in)
+	if err != nil {
+		fmt.Fprintln(os.Stderr, err)
+		os.Exit(64)
+	}
+	var cases []*FmtCase
+	if err := json.Unmarshal(b, &cases); err != nil {
+		fmt.Fprintln(os.Stderr, err)
+		os.Exit(64)
+	}
+	of, _ := os.OpenFile(out, os.O_APPEND|os.O_CREATE|os.O_WRONLY, 0644)
+	w := bufio.NewWriter(of)
+	for _, c := range cases {
+		// log the case before attempting it: a missing value ends the process
+		fmt.Fprintf(w, "{\"attempt\":%d}\n", c.ID)
+		w.Flush()
+		t := newTaskFor(c)
+		r := &FmtResult{ID: c.ID, Command: t.Command, Outs: map[string]string{}, Again: true}
+		for port, ip := range t.OutIPs {
+			r.Outs[port] = ip.Path()
+		}
+		for k := 0; k < 7; k++ {
+			t2 := newTaskFor(c)
+			if t2.Command != r.Command {
+				r.Again = false
+			}
+			for port, ip := range t2.OutIPs {
+				if r.Outs[port] != ip.Path() {
+					r.Again = false
+				}
+			}
+		}
+		jb, _ := json.Marshal(r)
+		w.Write(jb)
+		w.WriteString("\n")
+		w.Flush()
+	}
+	fmt.Println("FMT-DONE")
+}
+
+// TDCase is one task identity (C14).
+type TDCase struct {
+	ID     int                 `json:"id"`
+	Name   string              `json:"name"`
+	In     map[string]string   `json:"in"`
+	Joined map[string][]string `json:"joined"`
+	Params map[string]string   `json:"params"`
+	Tags   map[string]string   `json:"tags"`
+}
+
+func tempDirOf(c *TDCase) string {
+	cmd := "x"
+	for port := range c.In {
+		cmd += " {i:" + port + "}"
+	}
+	for port := range c.Joined {
+		cmd += " {i:" + port + "|join: }"
+	}
+	fc := &FmtCase{ID: c.ID, Proc: c.Name, Cmd: cmd, In: c.In, Joined: c.Joined, Params: c.Params, Tags: c.Tags}
+	if len(c.Joined) == 0 {
+		// the public constructor alone is enough
+		inIPs := map[string]*sp.FileIP{}
+		for port, path := range c.In {
+			ip, err := sp.NewFileIP(path)
+			if err != nil {
+				fmt.Println("TD-ERROR", c.ID, err)
+				os.Exit(3)
+			}
+			inIPs[port] = ip
+		}
+		params := map[string]string{}
+		for k, v := range c.Params {
+			params[k] = v
+		}
+		tags := map[string]string{}
+		for k, v := range c.Tags {
+			tags[k] = v
+		}
+		t := sp.NewTask(nil, nil, c.Name, "", inIPs, nil, nil, params, tags, "", nil, 1)
+		return t.TempDir()
+	}
+	return newTaskFor(fc).TempDir()
+}
+
+func runTempDirImpl(in, out string) {
+	f, err := os.Open(in)
+	if err != nil {
+		fmt.Fprintln(os.Stderr, err)
+		os.Exit(64)
+	}
+	defer f.Close()
+	of, _ := os.Create(out)
+	w := bufio.NewWriter(of)
+	defer w.Flush()
+	sc := bufio.NewScanner(f)
+	sc.Buffer(make([]byte, 1<<20), 1<<24)
+	n := 0
+	for sc.Scan() {
+		var c TDCase
+		if json.Unmarshal(sc.Bytes(), &c) != nil {
+			continue
+		}
+		first := tempDirOf(&c)
+		stable := true
+		for k := 0; k < 7; k++ {
+			if tempDirOf(&c) != first {
+				stable = false
+			}
+		}
+		jb, _ := json.Marshal(map[string]interface{}{"id": c.ID, "dir": first, "stable": stable})
+		w.Write(jb)
+		w.WriteString("\n")
+		n++
+	}
+	w.Flush()
+	fmt.Println("TD-DONE", n)
+}
